@@ -78,6 +78,26 @@ CLAIMED = {
              "R=O), non-canonical / off-curve / degenerate public keys; TLC decides every verdict with VerifyDef. The toy model "
              "shows VerifyDef accepts only what some nonce produces.",
         note=SM2NOTE, ref="6 C03"),
+    "C09": dict(
+        technique="TLA+ abstract machine (AsmMachine.tla) executing the assembler's own listing of the current tree with a pub/ptr/sec value domain; TLC explores every length vector and both outcomes of the verdict branch",
+        text="The macro-expanded listing (`go tool asm -S`) of every amd64 routine with a Go declaration is converted at check time into "
+             "instruction records; TLC runs the abstract machine on each length vector (text, aad, nonce, tag swept separately and "
+             "mixed; thorough: every length 0..1100 / 1..300). Key, data, nonce, aad and scratch bytes are one abstract value, so "
+             "each explored path covers ALL data values; a branch whose flags derive from data, or an access whose base derives "
+             "from data, is a violation; openAsm must take exactly one data-dependent branch (the verdict).",
+        note="Trusted: TLC/SANY, the opcode classification (vlib/asmx.py, fails closed on unknown opcodes/operands), the value semantics in "
+             "AsmMachine.tla, the Go assembler. arm64 is NOT covered yet (no arm64 semantics table); no dynamic PC-trace binding yet.",
+        ref="6 C09"),
+    "C11": dict(
+        technique="TLA+ abstract machine bounds check of every access of the extracted listing (symbolic placement) + TLC trace validation of guard-page executions (PROT_NONE before/after every buffer)",
+        text="Static: pointers are (region, offset) in the abstract machine, so every load/store of every routine for every length "
+             "vector is checked against the region size (round keys 128, scratch 32, RODATA by GLOBL size, masked accesses by "
+             "their public mask) independent of placement. Dynamic: public AEAD/Block methods and exported kernels run with each "
+             "buffer ending at / beginning after an inaccessible page over text, aad and nonce lengths and tag sizes; TLC "
+             "validates the values and any fault is an out-of-range access; short-buffer Encrypt/Decrypt must panic without "
+             "touching bytes beyond the slice.",
+        note="Trusted: as C09, plus mmap/mprotect placement in the executor and debug.SetPanicOnFault. arm64 not covered.",
+        ref="6 C11"),
     "C12": dict(
         technique="TLA+ SignFlow/Reader machines (model-checked in MC_Reader) + EC definition; TLC trace validation of key generation, key test, derivation, curve test",
         text="GenerateKey on streams with candidates 0, n-1, n, n+1, 2^256-1 in every order before a valid one (key, [d]G and bytes "
